@@ -16,6 +16,55 @@ COMMON_NOTE = ("Trusted base: Lean 4.33 kernel (thorough tier re-checks with lea
                "pytz internals are modelled by explicit contracts, not verified (DESIGN §9).")
 
 CHECKS = {
+    "C02": dict(
+        technique="Lean 4 theorems on Model B aggregation (dedup, sumVals, rounding, energy×intensity) + K-calc correspondence",
+        text=("Proved in Lean for all inputs: the collections the system sums over contain every reachable component "
+              "exactly once (dedup), the un-rounded total is the hour-by-hour sum of the parts and the category/period "
+              "views are sums of sub-lists of the same parts, the 4-decimal rounding moves the total by ≤ 5e-5 kg, "
+              "energy footprint = energy × intensity physically. Model B (all update rules) is run against the real "
+              "code on random systems every run (K-calc, every calculated attribute hour by hour); the same accounting "
+              "identities, the five views, finiteness and sign are evaluated on the real objects as the search."),
+        design="§7 C02"),
+    "C03": dict(
+        technique="Lean 4 theorems on the executable cores occFold/dataFold/avgOccSeries of Model B + K-calc correspondence",
+        text=("Proved in Lean for every start series, delay list and duration: occurrences are the starts shifted by "
+              "the whole hours of the preceding steps, summed over appearances (total = multiplicity × starts); data "
+              "totals = occurrences × per-request amount; occurrence-hours = occurrences × duration incl. the "
+              "fractional last hour (journeys in parallel and device energy use the same function). K-calc runs the "
+              "whole Model B against the real code; the conservation equalities are evaluated exactly on real objects."),
+        design="§7 C03"),
+    "C04": dict(
+        technique="Lean 4 theorems on the sizing rules of Model B (ceil, on-premise peak, fixed counts, cumsum) + K-calc correspondence",
+        text=("Proved in Lean: autoscaling = hour-by-hour ceiling (≥ need, < need+1), serverless = raw need, on-premise = "
+              "constant ≥ every hourly need, a fixed count is honoured exactly or the rule raises (server and storage), "
+              "cumulative need = initial need + running sum of the delta, instances×capacity ≥ cumulative need, active ≤ "
+              "provisioned position by position. NOT yet proved: non-negativity of the deletion-free cumulative need "
+              "over ℚ (checked by the oracle only). Known findings D4 (float cancellation rejects deletion-free models) "
+              "and D15 (positional combination of different time windows) are reproduced by the model and reported as "
+              "KNOWN-FINDING."),
+        design="§7 C04"),
+    "C10": dict(
+        technique="Lean 4 congruence theorems (PhysEq) for Model A operators and magnitude reads + K-calc with random units",
+        text=("Proved in Lean: every scalar and hourly operator is a congruence for physical equality, `.to u` "
+              "canonicalises (physically equal inputs become equal), the ceil/floor magnitude reads of Model B come "
+              "after `.to hour`, sign/zero tests are unit independent. The composition through all rules is not one "
+              "theorem; it is validated by K-calc (a random unit per input: a bare-magnitude read in the code is a "
+              "disagreement) and searched by rebuilding the same model with every input re-expressed."),
+        design="§7 C10"),
+    "C12": dict(
+        technique="Lean 4 linearity theorems on Model A/B chains + K-calc correspondence + ratio oracle",
+        text=("Proved in Lean: scalar driver × k ⇒ hourly product × k at every hour, through `.to`; divisor × k ⇒ "
+              "quotient / k; occurrences, occurrence-hours and journeys in parallel are × k when all traffic is × k; "
+              "ceil-based counts are not proportional (witness). K-calc ties Model B to the code; the ratio test on "
+              "the real code (one driver at a time, all traffic) is the search."),
+        design="§7 C12"),
+    "C19": dict(
+        technique="Lean 4 permutation-invariance theorems for the accumulations of Model B + K-calc + shuffled rebuilds",
+        text=("Proved in Lean: sumVals (every `+=` accumulation of the rules) is invariant under permutation of its "
+              "terms hour by hour, the de-duplicated collections do not depend on enumeration order, same-step job "
+              "order is irrelevant. Identifiers never enter Model B. Float non-associativity and Python hashing are "
+              "runtime: covered by rebuilding with shuffled creation order / permuted lists and comparing."),
+        design="§7 C19"),
     "C09": dict(
         technique="Lean 4 theorems on Model A (Qty/HQ/Val operators) + K-qty correspondence with the real classes",
         text=("Proved for all operands in Lean: physical sum/difference/product/quotient, dimension of the result, "
